@@ -1,4 +1,6 @@
-(* Encoders of the HttpFraming model's results into Lib/Obs.T for the correspondence check. *)
+(* Encoders of the HttpFraming model's results into Lib/Obs.T for the correspondence check.
+   Inputs are described compactly (Coq elaborates large literals slowly): the bytes of all messages once,
+   the cut positions, and the oracle tables as slices of those bytes. *)
 From Coq Require Import List ZArith NArith Bool.
 From Circ Require Import Lib.Obs Model.HttpFraming.
 Import ListNotations.
@@ -15,6 +17,25 @@ Definition obs_state (s : pstate) : T :=
   | POutOfFuel => Tl [Tn 7]
   end.
 
+Definition tag (s : pstate) : Z :=
+  match s with
+  | PFirst _ => 0 | PHead _ _ _ => 1 | PBody _ _ _ _ _ => 2 | PChunk _ _ _ _ => 3
+  | PDone _ _ _ => 4 | PErr _ => 5 | PCrash => 6 | POutOfFuel => 7
+  end.
+
+(* tag, length of the carried-over buffer, length of the body so far *)
+Definition obs_short (s : pstate) : T :=
+  match s with
+  | PFirst buf => Tl [Tn 0; Tnat (length buf); Tn 0]
+  | PHead _ _ buf => Tl [Tn 1; Tnat (length buf); Tn 0]
+  | PBody _ _ _ _ body => Tl [Tn 2; Tn 0; Tnat (length body)]
+  | PChunk _ _ body buf => Tl [Tn 3; Tnat (length buf); Tnat (length body)]
+  | PDone _ _ body => Tl [Tn 4; Tn 0; Tnat (length body)]
+  | PErr e => Tl [Tn 5; TN e; Tn 0]
+  | PCrash => Tl [Tn 6; Tn 0; Tn 0]
+  | POutOfFuel => Tl [Tn 7; Tn 0; Tn 0]
+  end.
+
 Definition obs_event (e : event) : T :=
   match e with
   | EMsg fl blk body => Tl [Tn 0; Tb fl; Tb blk; Tb body]
@@ -22,26 +43,41 @@ Definition obs_event (e : event) : T :=
   | ECrash => Tl [Tn 2]
   end.
 
-Section Run.
-Variable kind_resp : bool.
-Variable tfl : list (list N * option bool).
-Variable thd : list (list N * option (option Z * bool)).
-
-Let feed' := feed kind_resp (tbl_fl tfl) (tbl_hd thd).
-
-(* states of the raw parser after every read *)
-Fixpoint parser_trace (s : pstate) (reads : list (list N)) : list pstate :=
-  match reads with
+(* keep the reads after which the phase changed or an event was fired (with their index) *)
+Fixpoint compress (i : nat) (prev : Z) (tr : list (pstate * list event)) : list T :=
+  match tr with
   | [] => []
-  | d :: ds => let s1 := feed' s d in s1 :: parser_trace s1 ds
+  | (s, evs) :: r =>
+      let t := tag s in
+      if (t =? prev)%Z && (match evs with [] => true | _ => false end) then compress (S i) t r
+      else Tl [Tnat i; obs_short s; Tlist obs_event evs] :: compress (S i) t r
   end.
 
-Definition obs_parser (reads : list (list N)) : T :=
-  Tlist obs_state (parser_trace (PFirst []) reads).
+Definition slice (off len : nat) (l : list N) : list N := firstn len (skipn off l).
 
-Let emit := if kind_resp then cli_emit else srv_emit.
+(* cut l at the absolute, increasing positions cuts *)
+Fixpoint cut_at (prev : nat) (cuts : list nat) (l : list N) : list (list N) :=
+  match cuts with
+  | [] => [l]
+  | c :: cs => firstn (c - prev) l :: cut_at c cs (skipn (c - prev) l)
+  end.
 
-(* connection state and events fired after every read *)
+Definition no_emit (s : pstate) : option (list event) := None.
+
+Section Run.
+Variable mode : nat.                       (* 0 raw parser, 1 server HTTP, 2 client HTTP *)
+Variable kind_resp : bool.
+Variable msg : list N.
+Variable cuts : list nat.
+Variable sfl : list (nat * nat * option bool).                       (* first-line table, keys as slices *)
+Variable lfl : list (list N * option bool).                          (* ... and literally *)
+Variable shd : list (nat * nat * option (option Z * bool)).
+Variable lhd : list (list N * option (option Z * bool)).
+
+Let tfl := map (fun e => (slice (fst (fst e)) (snd (fst e)) msg, snd e)) sfl ++ lfl.
+Let thd := map (fun e => (slice (fst (fst e)) (snd (fst e)) msg, snd e)) shd ++ lhd.
+Let emit := match mode with O => no_emit | S O => srv_emit | _ => cli_emit end.
+
 Fixpoint conn_trace (s : pstate) (reads : list (list N)) : list (pstate * list event) :=
   match reads with
   | [] => []
@@ -49,6 +85,7 @@ Fixpoint conn_trace (s : pstate) (reads : list (list N)) : list (pstate * list e
                (s1, e1) :: conn_trace s1 ds
   end.
 
-Definition obs_conn (reads : list (list N)) : T :=
-  Tlist (fun p => Tpair (obs_state (fst p)) (Tlist obs_event (snd p))) (conn_trace (PFirst []) reads).
+Definition obs_run : T :=
+  let tr := conn_trace (PFirst []) (cut_at 0 cuts msg) in
+  Tpair (Tl (compress 0 0%Z tr)) (obs_state (fst (last tr (PFirst [], [])))).
 End Run.
